@@ -85,6 +85,16 @@ P = {
    "Every (timestamp, format) of the grid is formatted through the public DateTime API (and through the date/date_in_tz filters on a sub-grid) and compared with the reference; every accepted input syntax with and without offset must parse to the right instant and offset; from_str(to_string(x)) must preserve instant and offset; == and < must agree with UTC nanosecond counts.",
    "`#` and flags/width on the zone directives compared modulo padding/case; negative years and now/today outside the grid; %Z prints the numeric offset (documented deviation)",
    "DESIGN.md §5 C17"),
+ "C11": (True, "laws", "exploration",
+   "exhaustive evaluation of all ordered pairs (with independently rebuilt copies) of a closed 67-value pool through 7 API surfaces and through templates against the algebraic laws of the statement; full pair table recomputed across rebuilds and fresh processes",
+   "Reflexivity (NaN excepted), symmetry, != as negation, </> duality, <=/>= coherence on ordered pairs, equal values never strictly ordered, int/float equality within 2^53, chronological date-times, congruence under independent reconstruction, agreement of Value/ValueCow/ValueViewCmp and of if/case/contains/uniq/sort with the API, byte-identical tables across 50-200 rebuilds and 4-16 fresh processes (different hash seeds).",
+   "transitivity not claimed; NaN exempt from reflexivity",
+   "DESIGN.md §5 C11"),
+ "C12": (True, "laws+enum", "exploration",
+   "exhaustive enumeration of all values of a recursive generator (23 leaves, arrays 0..2, objects 0..2 keys) to depth 2-3, each observed through 10-13 views/conversions; instances of derived structs rendered both as derived view and as serde conversion through 14 probing templates; integer boundary sweep",
+   "All views (as_view, to_value, ValueCow owned/borrowed, Option, references, to_value/from_value/to_object, serde_json round trip) must agree with the original on type name, state answers, kind predicates, size/keys, scalar conversions, printed forms and == in both directions; derived structs must render exactly like their serde conversion; out-of-range integers must be refused or carried as the nearest double.",
+   "date-looking strings excluded from the serde -> Liquid direction (documented purpose of the untagged scalar); real dates cross Serialize as strings and are compared through from_value only; a conversion may refuse (enums needing deserialize_enum, 128-bit integers) but must not alter",
+   "DESIGN.md §5 C12"),
 }
 ORDER = ["C%02d" % i for i in range(1, 21)]
 REASON_WIP = "check not built yet in this round (work in progress; planned per DESIGN.md §5)"
